@@ -6,6 +6,7 @@
 //! * H1 `enter_eval`   - stack low-water mark / expression-recursion counters per thread
 //! * H2 `on_call`      - append-only log of function calls (only while recording)
 //! * H3 `on_heap_mut`  - append-only log of heap cells handed out mutably
+//! * H4 `enter_format` - number of `format_expr_impl` invocations (work done by the formatter)
 
 use crate::values::Value;
 use std::cell::{Cell, RefCell};
@@ -28,6 +29,17 @@ thread_local! {
     static MAX_CALL_DEPTH: Cell<usize> = const { Cell::new(0) };
     static EVAL_ENTRIES: Cell<u64> = const { Cell::new(0) };
     static LOG_PATH: RefCell<Option<Option<String>>> = const { RefCell::new(None) };
+    static FORMAT_CALLS: Cell<u64> = const { Cell::new(0) };
+}
+
+/// H4: called at the top of `formatter::format_expr_impl`.
+pub fn enter_format() {
+    FORMAT_CALLS.with(|c| c.set(c.get() + 1));
+}
+
+/// Read and reset the H4 counter of the current thread.
+pub fn take_format_calls() -> u64 {
+    FORMAT_CALLS.with(|c| c.replace(0))
 }
 
 /// Snapshot of the H1 counters of the current thread.
